@@ -21,6 +21,7 @@ MAP = TDict(STR, INT)
 OI = option_sort(z3.IntSort())
 next_label = z3.Function("label_at_cursor", z3.IntSort(), z3.StringSort())
 existing = z3.Function("node_exists_before_this_parse_step", z3.IntSort(), z3.BoolSort())
+node_named = z3.Function("BNode_with_given_id", z3.StringSort(), z3.IntSort())
 
 
 class LabelModel(Model):
@@ -29,6 +30,12 @@ class LabelModel(Model):
     def __init__(self):
         super().__init__()
         declare_class("W3CNTriplesParser", fields={"skolemize": BOOL, "_bnode_ids": MAP, "__peek__": BOOL})
+        declare_class("SinkParser", fields={"_anonymousNodes": MAP, "_store": TObj("RDFSink"), "_context": INT, "_reason2": INT})
+        declare_class("RDFSink", fields={})
+        declare_class("TriXHandler", fields={"preserve_bnode_ids": BOOL, "bnode": MAP})
+        declare_class("Parser", fields={"_bnodes": MAP})
+        g0 = self.globals
+        g0["BNode"] = ClassRef("BNode", construct=self.mk_bnode)
         g = self.globals
         g["r_nodeid"] = "r_nodeid"
         g["bNode"] = ClassRef("bNode", construct=self.mk_bnode)
@@ -39,7 +46,11 @@ class LabelModel(Model):
 
     def mk_bnode(self, it, a, k):
         p = it.path
-        if a:                                    # bNode(existing id) re-creates the same node
+        if a and isinstance(a[0], SV) and a[0].ty.sort() == z3.StringSort():
+            n = node_named(a[0].z)              # BNode(label): the node with that very id - not fresh, may exist already
+            p.assume(n > 0)
+            return SV(INT, n)
+        if a:                                    # bNode(existing node) re-creates the same node
             return SV(INT, p.inject(INT, a[0]))
         n = z3.Int(p.fresh_name("fresh_bnode"))
         p.assume(z3.Not(existing(n)))
@@ -53,6 +64,8 @@ class LabelModel(Model):
                 return BoundMethod(obj, name, lambda it2, o, a, k: it2.path.get_field(o, "__peek__"))
             if name == "eat":
                 return BoundMethod(obj, name, lambda it2, o, a, k: ("match", o))
+        if isinstance(obj, SV) and isinstance(obj.ty, TObj) and obj.ty.cls == "RDFSink" and name == "newBlankNode":
+            return BoundMethod(obj, name, lambda it2, o, a, k: self.mk_bnode(it2, [], {}))
         if isinstance(obj, tuple) and obj and obj[0] == "match" and name == "group":
             return BoundMethod(None, name, lambda it2, o, a, k: SV(STR, next_label(obj[1].z)))
         return NotImplemented
@@ -98,6 +111,40 @@ class LabelModel(Model):
                           self_ty=P, pre=pre, post=post, modifies=[MAP],
                           note="label -> node: a known label gives its node, a new label a fresh node that is recorded; "
                                "the map stays injective"))
+
+
+        # ---- the same label-map discipline in the Turtle/N3/TriG, TriX and JSON-LD readers
+        def simple(relpath, qual, cls, field, label_param, extra_pre=None):
+            def m(st, c):
+                return st.content(MAP, st.field(cls, field, c.self.z))
+
+            def pre2(c):
+                st = c.old
+                mm = m(st, c)
+                l1, l2 = z3.Strings("sl1 sl2")
+                base = z3.And(c.self.z > 0, st.field(cls, field, c.self.z) > 0,
+                              z3.ForAll([l1, l2], z3.Implies(z3.And(OI.is_some(mm[l1]), OI.is_some(mm[l2]), l1 != l2), mm[l1] != mm[l2])),
+                              z3.ForAll([l1], z3.Implies(OI.is_some(mm[l1]), z3.And(existing(OI.get(mm[l1])), OI.get(mm[l1]) > 0))))
+                return z3.And(base, extra_pre(c)) if extra_pre else base
+
+            def post2(c):
+                m0, m1 = m(c.old, c), m(c.new, c)
+                lab = c.args[label_param].z
+                r = c.path.inject(INT, c.result)
+                l1, l2 = z3.Strings("tl1 tl2")
+                return [("known-label-same-node", z3.Implies(OI.is_some(m0[lab]), z3.And(r == OI.get(m0[lab]), m1 == m0))),
+                        ("new-label-fresh-node-recorded", z3.Implies(OI.is_none(m0[lab]), z3.And(
+                            z3.Not(existing(r)), m1 == z3.Store(m0, lab, OI.some(r))))),
+                        ("map-stays-injective", z3.ForAll([l1, l2], z3.Implies(
+                            z3.And(OI.is_some(m1[l1]), OI.is_some(m1[l2]), l1 != l2), m1[l1] != m1[l2])))]
+            self.add(Contract("C12", relpath, qual, [Param(label_param, STR)], ret=INT, self_ty=TObj(cls), pre=pre2, post=post2,
+                              modifies=[MAP], note=f"{qual}: label -> node map of one parse: known label gives its node, a new "
+                                                   "label a fresh recorded node; injective"))
+        simple("rdflib/plugins/parsers/notation3.py", "SinkParser.anonymousNode", "SinkParser", "_anonymousNodes", "ln",
+               lambda c: c.old.field("SinkParser", "_store", c.self.z) > 0)
+        simple("rdflib/plugins/parsers/trix.py", "TriXHandler.get_bnode", "TriXHandler", "bnode", "label",
+               lambda c: z3.Not(c.old.field("TriXHandler", "preserve_bnode_ids", c.self.z)))
+        simple("rdflib/plugins/parsers/jsonld.py", "Parser._bnode", "Parser", "_bnodes", "bid")
 
 
 def build():
